@@ -200,7 +200,15 @@ func compareWithModel(m prog.Result, o obs, skipCompletion bool) string {
 	if o.Panic != "" {
 		return "Go panic escaped from otto: " + o.Panic
 	}
-	if !sameTrace(m.Trace, o.Trace) {
+	otrace := o.Trace
+	if strings.HasPrefix(m.Threw, "value:object") || strings.HasPrefix(m.Threw, "value:function") {
+		// an uncaught thrown OBJECT: the host (Run) renders it as an error text and may call its toString /
+		// valueOf for that, after the program has ended — host behaviour, not program behaviour
+		if len(otrace) > len(m.Trace) {
+			otrace = otrace[:len(m.Trace)]
+		}
+	}
+	if !sameTrace(m.Trace, otrace) {
 		return "host-call trace differs (" + firstDiff(m.Trace, o.Trace) + "): ES5 " + showTrace(m.Trace) + " otto " + showTrace(o.Trace)
 	}
 	if m.Threw != "" {
